@@ -251,6 +251,10 @@ def run(ctx):
             if T.is_call(rv, r"Option::<T>::(map_or|is_none_or|is_some_and)$"):
                 clo = [a for a in rv[2] if isinstance(a, tuple) and a[0] == "agg" and a[1] == "closure"]
                 dflt = [a for a in rv[2] if verdict(body, a) == "true"]
+                # the trait method itself handed over as a function item: map_or(true, T::is_null)
+                fni = [a for a in rv[2] if isinstance(a, tuple) and a[0] == "const" and isinstance(a[1], tuple) and a[1][0] == "fn" and re.search(r"ToMysqlValue(>)?::is_null$", str(a[1][1]))]
+                if fni and (dflt or rv[1].endswith("is_none_or")):
+                    return "inner"
                 if clo and (dflt or rv[1].endswith("is_none_or")):
                     cb = prog.bodies.get(clo[0][2])
                     if cb is not None and all(verdict(cb, q.return_value()) in ("true", "inner") for q in enumerate_paths(cb) if q.end == "return"):
